@@ -137,7 +137,7 @@ def ordering_table(trace):
         if '"k":"atomic"' not in ln:
             continue
         e = json.loads(ln)
-        if e["op"] == "get_mut":
+        if e["op"] == "get_mut" or not e["site"]:
             continue
         key = "%s %s" % (e["site"], e["op"])
         val = e["ord"] if e["op"] != "cas" else "%s/%s" % (e["ord"], e["ordf"])
